@@ -88,8 +88,10 @@ def run_rust_test(crate_dir, module_file, code, test_name="verif_replay_case", t
             shutil.copy(os.path.join(crate_dir, f), os.path.join(d, f))
         if os.path.lexists(os.path.join(crate_dir, "testdata")):
             os.symlink(os.path.realpath(os.path.join(crate_dir, "testdata")), os.path.join(d, "testdata"))
-        with open(os.path.join(d, "src", module_file), "a") as f:
-            f.write("\n" + code + "\n")
+        parts = code if isinstance(code, dict) else {module_file: code}
+        for mf, cc in parts.items():
+            with open(os.path.join(d, "src", mf), "a") as f:
+                f.write("\n" + cc + "\n")
         env = dict(os.environ, CARGO_NET_OFFLINE="true", CARGO_TARGET_DIR=os.path.join(crate_dir, "replay_target"), RUSTFLAGS="-A warnings")
         env.pop("RUSTUP_TOOLCHAIN", None)
         p = subprocess.run(["cargo", "test", "--offline", "--lib", test_name, "--", "--nocapture", "--test-threads", "1"],
